@@ -61,7 +61,7 @@ impl<'a> Work<'a> {
         st.int_accepts += i.int_accepted as u64;
         st.nmi_accepts += i.nmi_accepted as u64;
         st.halted_steps += before.halted as u64;
-        if let Some(m) = &out.mismatch {
+        for m in out.mismatch.iter().chain(out.more.iter()) {
             if self.verbose {
                 println!("MISMATCH class={:?} key={} {}", m.class, m.key, m.what);
                 println!("  before={:04x?}", before);
